@@ -76,6 +76,8 @@ def run_mc(name, workdir, level=None, timeout=3000, simulate=None, tier="quick")
            "level": level}
     if not ok:
         res["tail"] = out[-4000:]
+        mv = re.search(r"Invariant (\w+) is violated", out)
+        res["violated"] = mv.group(1) if mv else ""
     # per-action coverage: an action never taken means the model did not exercise it
     cov = {}
     for mm in re.finditer(r"<(\w+) line \d+, col \d+ to line \d+, col \d+ of module (\w+)>: (\d+):(\d+)", out):
